@@ -37,6 +37,19 @@ func findResolver(p *core.Program) (*types.Func, []resolverSite, string) {
 			if fd.Body == nil {
 				continue
 			}
+			queryOnly := map[*ast.CallExpr]bool{}
+			ast.Inspect(fd.Body, func(n ast.Node) bool {
+				if as, ok := n.(*ast.AssignStmt); ok && len(as.Lhs) == 3 && len(as.Rhs) == 1 {
+					if c, ok := eng.Unparen(as.Rhs[0]).(*ast.CallExpr); ok {
+						b0, ok0 := as.Lhs[0].(*ast.Ident)
+						b1, ok1 := as.Lhs[1].(*ast.Ident)
+						if ok0 && ok1 && b0.Name == "_" && b1.Name == "_" {
+							queryOnly[c] = true
+						}
+					}
+				}
+				return true
+			})
 			ast.Inspect(fd.Body, func(n ast.Node) bool {
 				c, ok := n.(*ast.CallExpr)
 				if !ok {
@@ -48,6 +61,11 @@ func findResolver(p *core.Program) (*types.Func, []resolverSite, string) {
 				}
 				sig := fn.Type().(*types.Signature)
 				if sig.Recv() != nil || sig.Results().Len() != 3 || sig.Params().Len() != 4 {
+					return true
+				}
+				// a pure query (`_, _, ok := resolve(…)`: neither the type nor the function name is
+				// used) types and rewrites nothing: it is not a site of R17.1
+				if queryOnly[c] {
 					return true
 				}
 				byFn[fn] = append(byFn[fn], resolverSite{rel, fd, c})
@@ -75,8 +93,8 @@ func findResolver(p *core.Program) (*types.Func, []resolverSite, string) {
 }
 
 func runC17(p *core.Program, r *core.Report) {
-	r.Explanation = "Decides the structural clauses on which `a op b` = `fn(a, b)` rests for every occurrence: (R17.1) the type checker and the operator patcher call ONE resolver, with the functions registered for the node's own operator, the configuration's types table, and the static types of the left and right operand in that order, and neither puts any test between the lookup of the operator and the resolver call that the other does not have (an occurrence the checker types as overloaded is exactly an occurrence the patcher rewrites); (R17.2) the replacement is a call of the function the resolver returned with [left, right] as arguments, each once; (R17.3) expr.Compile validates the mapping (Config.Check) and returns its error before the first type check, and the validation establishes everything the resolver relies on: the name exists, is unambiguous (non-nil type), is a function, has exactly the parameter count the resolver indexes (receiver included for methods) and exactly one result; (R17.4) on every path of expr.Compile from a type check to code generation an operator patch follows that check; (R17.5) the walk that applies the patch visits every child slot of every node kind through its address (= C10); (R17.6) ast.Patch keeps type and location."
-	r.NotDecided = []string{"that the call then evaluates to the function applied to the operands (C01's call rule)", "the resolver's choice among several candidates for given operand types (first match, by identity or interface implementation): a value-level question", "retyping of integer-literal arguments inside call arguments (checker.checkFunc), which can change the operand types an inner operator is resolved with"}
+	r.Explanation = "Decides the structural clauses on which `a op b` = `fn(a, b)` rests for every occurrence: (R17.1) the type checker and the operator patcher call ONE resolver, with the functions registered for the node's own operator, the configuration's types table, and the static types of the left and right operand in that order, and neither puts any test between the lookup of the operator and the resolver call that the other does not have (an occurrence the checker types as overloaded is exactly an occurrence the patcher rewrites); (R17.2) the replacement is a call of the function the resolver returned with [left, right] as arguments, each once; (R17.3) expr.Compile validates the mapping (Config.Check) and returns its error before the first type check, and the validation establishes everything the resolver relies on: the name exists, is unambiguous (non-nil type), is a function, has exactly the parameter count the resolver indexes (receiver included for methods) and exactly one result; (R17.4) on every path of expr.Compile from a type check to code generation an operator patch follows that check; (R17.5) the walk that applies the patch visits every child slot of every node kind through its address (= C10); (R17.6) ast.Patch keeps type and location; (R17.7) the checker retypes the integer literals of a call argument only when no operator inside the argument resolves to an overload (the overload was chosen for the operand types as written)."
+	r.NotDecided = []string{"that the call then evaluates to the function applied to the operands (C01's call rule)", "the resolver's choice among several candidates for given operand types (first match, by identity or interface implementation): a value-level question"}
 	resolver, sites, msg := findResolver(p)
 	if resolver == nil {
 		r.Unk("R17.1", "resolver", "", msg)
@@ -98,6 +116,7 @@ func runC17(p *core.Program, r *core.Report) {
 	}
 	c17Replacement(p, r, nk, resolver, sites)
 	c17Validation(p, r, resolver)
+	c17RetypeVsOverload(p, r, resolver, nk)
 	c17AmbiguousTags(p, r)
 	c17ResolverFit(p, r, resolver)
 	c17Pipeline(p, r)
@@ -107,6 +126,7 @@ func runC17(p *core.Program, r *core.Report) {
 	r.Floor("R17.2", 2)
 	r.Floor("R17.3", 6)
 	r.Floor("R17.4", 2)
+	r.Floor("R17.7", 1)
 	r.Floor("R17.5.2", 23)
 	r.Floor("R17.6", 3)
 }
@@ -918,6 +938,7 @@ func c17AmbiguousTags(p *core.Program, r *core.Report) {
 
 func c17Controls() []core.Mutant {
 	return []core.Mutant{
+		{Name: "literal retyping does not ask about overloads", File: "checker/checker.go", Old: "if isIntegerOrArithmeticOperation(arg) && isNumber(in) && !v.hasOverloadedOperator(arg) {", New: "if isIntegerOrArithmeticOperation(arg) && isNumber(in) {", Rule: "R17.7", Construct: "spares overloaded operators"},
 		{Name: "refactor: existence test restated by De Morgan", File: "conf/config.go", Old: "if !ok || fnType.Type == nil || fnType.Type.Kind() != reflect.Func {", New: "if !(ok && fnType.Type != nil && fnType.Type.Kind() == reflect.Func) {", Silent: true},
 		{Name: "patcher skips operands without static type", File: "compiler/patcher.go", Old: "\trightType := binaryNode.Right.Type()\n", New: "\trightType := binaryNode.Right.Type()\n\tif leftType == nil || rightType == nil {\n\t\treturn\n\t}\n", Rule: "R17.1", Construct: "no further guard"},
 		{Name: "resolver accepts every assignable operand", File: "conf/operators_table.go", Old: "firstArgumentFit := l == firstArgType || (", New: "firstArgumentFit := (l != nil && l.AssignableTo(firstArgType)) || (", Rule: "R17.1", Construct: "operand fits only its own type"},
@@ -935,5 +956,84 @@ func c17Controls() []core.Mutant {
 		{Name: "REFACTORING: operand types read inline", File: "compiler/patcher.go", Silent: true,
 			Old: "\t_, fn, ok := conf.FindSuitableOperatorOverload(fns, p.types, leftType, rightType)", New: "\t_, fn, ok := conf.FindSuitableOperatorOverload(fns, p.types, binaryNode.Left.Type(), binaryNode.Right.Type())",
 			Edits: [][2]string{{"\tleftType := binaryNode.Left.Type()\n\trightType := binaryNode.Right.Type()\n", ""}}},
+	}
+}
+
+// c17RetypeVsOverload (R17.7): the checker retypes the integer literals of a call argument to
+// the parameter's type, descending through arithmetic operators. An operator on the way that
+// resolves to an overload was resolved FOR THE OPERAND TYPES AS WRITTEN; retyping a literal
+// operand afterwards makes the patcher look the overload up with another type, not find it,
+// and compile the built-in operator: `Pay(M * 2)` no longer equals `Pay(Mul(M, 2))`. Rule:
+// every call of the retyping function from outside itself is reached only when a predicate
+// that consults the overload resolver has answered false for that argument.
+func c17RetypeVsOverload(p *core.Program, r *core.Report, resolver *types.Func, nk *eng.NodeKinds) {
+	info := p.Pkg("checker").TypesInfo
+	_, where := retypableOperators(p, nk)
+	var retyper *ast.FuncDecl
+	for _, fd := range p.FuncDecls("checker") {
+		if core.FuncName("checker", fd) == where {
+			retyper = fd
+		}
+	}
+	if retyper == nil {
+		r.Unk("R17.7", "checker/literal retyping vs overloads", "", "the function that retypes integer literals was not found")
+		return
+	}
+	retObj := info.Defs[retyper.Name]
+	// functions of the checker that (transitively, depth 2) call the resolver
+	reaches := map[types.Object]bool{}
+	for round := 0; round < 3; round++ {
+		for _, fd := range p.FuncDecls("checker") {
+			if fd.Body == nil || reaches[info.Defs[fd.Name]] {
+				continue
+			}
+			ast.Inspect(fd.Body, func(n ast.Node) bool {
+				if c, ok := n.(*ast.CallExpr); ok {
+					if fn := eng.CalleeOf(info, c); fn != nil && (fn == resolver || reaches[fn]) {
+						reaches[info.Defs[fd.Name]] = true
+					}
+				}
+				return true
+			})
+		}
+	}
+	n := 0
+	for _, fd := range p.FuncDecls("checker") {
+		if fd.Body == nil || fd == retyper {
+			continue
+		}
+		ast.Inspect(fd.Body, func(nd ast.Node) bool {
+			c, ok := nd.(*ast.CallExpr)
+			if !ok || eng.CalleeOf(info, c) == nil || types.Object(eng.CalleeOf(info, c)) != retObj || len(c.Args) < 1 {
+				return true
+			}
+			n++
+			arg := eng.ExprStr(c.Args[0])
+			guarded := false
+			for _, f := range eng.FactsAt(fd.Body, c) {
+				u, ok := eng.Unparen(f).(*ast.UnaryExpr)
+				if !ok || u.Op != token.NOT {
+					continue
+				}
+				gc, ok := eng.Unparen(u.X).(*ast.CallExpr)
+				if !ok {
+					continue
+				}
+				if g := eng.CalleeOf(info, gc); g != nil && reaches[g] {
+					for _, a := range gc.Args {
+						if eng.ExprStr(a) == arg {
+							guarded = true
+						}
+					}
+				}
+			}
+			r.Check(guarded, "R17.7", fmt.Sprintf("%s/literal retyping site#%d spares overloaded operators", core.FuncName("checker", fd), n), p.Pos(c.Pos()),
+				"reached only when a predicate that consults the overload resolver answered false for the argument",
+				"the literals of the argument `"+arg+"` are retyped to the parameter's type without asking whether an operator inside it resolves to an overload: with Mul(Money, int) mapped to `*`, `Pay(M * 2)` retypes 2 to Money, the patcher then finds no overload for (Money, Money) and the run fails with `invalid operation`, while `Pay(Mul(M, 2))` succeeds")
+			return true
+		})
+	}
+	if n == 0 {
+		r.Unk("R17.7", "checker/literal retyping vs overloads", "", "no call of the retyping function found")
 	}
 }
